@@ -255,3 +255,61 @@ Definition ppu_tick (p : ppu) (o : oam) : res (ppu * oam * N) :=
     let '(p3, o2) := ex in
     let t := p_ticks p3 + 1 in
     Ok (set_ticks p3 (if t =? 17556 then 0 else t), o2, N.lor req1 req2).
+
+(* ---- register file by address (low byte of FF40-FF4B; FF46 belongs to the OAM DMA engine) ---- *)
+Definition ppu_write_reg (a : N) (p : ppu) (o : oam) (v : N) : ppu * oam :=
+  match a with
+  | 64 => ppu_write_lcdc p o v
+  | 65 => (ppu_write_stat p v, o)
+  | 66 => (ppu_write_scy p v, o)
+  | 67 => (ppu_write_scx p v, o)
+  | 68 => (ppu_write_ly p v, o)
+  | 69 => (ppu_write_lyc p v, o)
+  | 71 => (ppu_write_bgp p v, o)
+  | 72 => (ppu_write_obp0 p v, o)
+  | 73 => (ppu_write_obp1 p v, o)
+  | 74 => (ppu_write_wy p v, o)
+  | 75 => (ppu_write_wx p v, o)
+  | _ => (p, o)
+  end.
+
+Definition ppu_read_reg (a : N) (p : ppu) : N :=
+  match a with
+  | 64 => ppu_read_lcdc p
+  | 65 => ppu_read_stat p
+  | 66 => ppu_read_scy p
+  | 67 => ppu_read_scx p
+  | 68 => ppu_read_ly p
+  | 69 => ppu_read_lyc p
+  | 71 => ppu_read_bgp p
+  | 72 => ppu_read_obp0 p
+  | 73 => ppu_read_obp1 p
+  | 74 => ppu_read_wy p
+  | 75 => ppu_read_wx p
+  | _ => 255
+  end.
+
+(* ---- histories of the PPU seen in isolation: machine cycles, register writes, and arbitrary activity of
+   the rest of the machine on the OAM component (CPU accesses, DMA, corruption), given as a function ---- *)
+Inductive ppu_op :=
+| PTick
+| PWrite (a v : N)
+| POam (g : oam -> oam).
+
+Definition ppu_step (s : ppu * oam) (op : ppu_op) : res (ppu * oam) :=
+  match op with
+  | PTick => do r <- ppu_tick (fst s) (snd s); Ok (fst r)
+  | PWrite a v => Ok (ppu_write_reg a (fst s) (snd s) v)
+  | POam g => Ok (fst s, g (snd s))
+  end.
+
+Definition ppu_run_from (s : ppu * oam) (h : list ppu_op) : res (ppu * oam) :=
+  fold_left (fun acc op => do x <- acc; ppu_step x op) h (Ok s).
+
+Definition ppu_power_on : ppu * oam := ppu_new oam_init.
+
+Definition ppu_run (h : list ppu_op) : res (ppu * oam) := ppu_run_from ppu_power_on h.
+
+(* the IF bits requested by one more machine cycle after history h *)
+Definition ppu_next_req (h : list ppu_op) : res N :=
+  do s <- ppu_run h; do r <- ppu_tick (fst s) (snd s); Ok (snd r).
